@@ -78,6 +78,11 @@ def run(prog: Program, chk: Check):
         st = field_stores(ch, var)
         for fld, srcs in want.items():
             vals = st.get(fld, [])
+            # a field copied from the other frame's same field (`connect_v1.x = connect_v2.x`) takes that field's source
+            if len(vals) == 1 and isinstance(vals[0], ast.Attribute) and path_of(vals[0].value) in (v2[0], v1[0]) and path_of(vals[0].value) != var:
+                other = field_stores(ch, path_of(vals[0].value)).get(vals[0].attr, [])
+                if len(other) == 1:
+                    vals = other
             good = len(vals) == 1 and any(s in names_in(vals[0]) for s in srcs) and not (names_in(vals[0]) & (OPTION_NAMES - srcs))
             # value transformation limited to int()/bool()
             if good:
@@ -159,7 +164,8 @@ def run(prog: Program, chk: Check):
         raise AnalysisError("anchor vanished: dynamic id assignment / connected=True in connect_module")
     dyn_ids = {dyn[0].id}
     gsd = flow.guard_states(g, edge_filter=lambda e: not (e.src in dyn_ids and e.kind != "exc"))
-    fold = lambda ps: [[(guards.fold_consts(e, res), pol) for e, pol in p] for p in ps]
+    ccm = guards.copy_map(cm.node)
+    fold = lambda ps: [[(guards.fold_consts(guards.subst(e, ccm), res), pol) for e, pol in p] for p in ps]
     dstart = consts["DYN_MOD_ID_START"]
     rng = guards.parse(f"not ({mp}.mod_id < 1) and not ({mp}.mod_id > {dstart})")
     with guards.int_theory():
@@ -171,11 +177,23 @@ def run(prog: Program, chk: Check):
              "dynamic assignment only for requested id 0", "assign_module_id() overrides a non-zero requested id")
     G.decide(not guards.any_path_implies(fold(gsd.at(conn[0])), guards.parse(f"{mp}.mod_id != 0")), fkey(cm, "zero-gets-dynamic"), where(cm, conn[0].ast),
              "id 0 is never admitted as is", "a module can be connected with id 0 without dynamic assignment")
-    loops = [n for n in g.nodes if n.kind == "for" and norm(n.ast.iter) in ("self.modules.values()", "list(self.modules.values())")]
+    # the loop over every table entry: directly over self.modules.values() (or a copy), or over a local built from it by
+    # a comprehension that leaves out nothing but the connecting module itself
+    from ..dataflow import source_closure
+    from .mgr import comprehension_facts
+
+    def whole_table(lpn):
+        if not isinstance(lpn.ast.target, ast.Name) or source_closure(cm.node, lpn.ast.iter) != {"self.modules"}:
+            return False
+        extra_ = comprehension_facts(cm.node, lpn.ast.target.id)
+        return all(norm(e_) in (f"{lpn.ast.target.id} is not {mp}", f"{lpn.ast.target.id} != {mp}") for e_, _ in extra_)
+
+    loops = [n for n in g.nodes if n.kind == "for" and whole_table(n)]
     if len(loops) != 1:
         raise AnalysisError("anchor vanished: uniqueness loop over self.modules.values() in connect_module")
     lp = loops[0]
     mv = path_of(lp.ast.target)
+    loop_facts = comprehension_facts(cm.node, mv)
     follow_static = lambda e: not (e.src in dyn_ids and e.kind != "exc")
     # static path must complete the loop: connected reachable only via the loop's 'done' edge
     r = flow.reach(g, [g.entry.id], follow=lambda e: follow_static(e) and not (e.src == lp.id and e.kind == "done"))
@@ -190,7 +208,7 @@ def run(prog: Program, chk: Check):
         if e.src not in body_ids:
             continue
         nb += 1
-        paths = gs.after_edge(e)
+        paths = fold([list(p_) + loop_facts for p_ in gs.after_edge(e)])  # locals such as `exclusive = m.unique or module.unique` are looked through
         if guards.any_path_implies(paths, id_goal):
             bad_id.append(e)
         if guards.any_path_implies(paths, nm_goal):
@@ -231,13 +249,20 @@ def run(prog: Program, chk: Check):
     mm_cls = prog.cls(MGR, "MessageManager")
     okw = True
     why = []
+    n_modular = 0
     for f in mm_cls.methods.values():
         for n in walk_local(f.node):
             tg = n.targets if isinstance(n, ast.Assign) else ([n.target] if isinstance(n, ast.AugAssign) else [])
             if not any(path_of(t) == "self.next_dynamic_mod_id_offset" for t in tg):
                 continue
             if isinstance(n, ast.Assign):
-                if not (isinstance(n.value, ast.Constant) and n.value.value == 0):
+                v = n.value
+                # `cursor = (cursor + 1) % span` keeps the cursor in [0, span) by construction
+                modular = isinstance(v, ast.BinOp) and isinstance(v.op, ast.Mod) and norm(v.left) in ("self.next_dynamic_mod_id_offset + 1", "1 + self.next_dynamic_mod_id_offset") \
+                    and f.key == am.key and _eval_local(prog, am, v.right) == span
+                if modular:
+                    n_modular += 1
+                elif not (isinstance(v, ast.Constant) and v.value == 0):
                     okw = False
                     why.append(norm(n))
             else:
@@ -248,7 +273,9 @@ def run(prog: Program, chk: Check):
     incs = [n for n in ag.nodes if n.kind == "stmt" and isinstance(n.ast, ast.AugAssign) and path_of(n.ast.target) == "self.next_dynamic_mod_id_offset"]
     wraps = [n for n in ag.nodes if n.kind == "test" and "self.next_dynamic_mod_id_offset" in flow.access_paths(n.ast)]
     okwrap = len(incs) == 1 and len(wraps) == 1
-    if okwrap:
+    if n_modular == 1 and not incs:
+        okwrap = True  # the modular update needs no separate wrap test
+    elif okwrap:
         t = wraps[0]
         val = None
         if isinstance(t.ast, ast.Compare) and len(t.ast.ops) == 1 and isinstance(t.ast.ops[0], ast.Eq):
